@@ -389,6 +389,28 @@ func checkC13(p *Prog, res *Result, tier string) {
 				good = true // the receiver's read-revision field
 			}
 		}
+		// the read-revision field itself is set only when a receiver is constructed (parameter) or forked (copied
+		// from the parent's field)
+		if ld, ok := v.(*ssa.UnOp); ok && good {
+			if fa, ok := ld.X.(*ssa.FieldAddr); ok {
+				for _, st := range p.fields().stores[fieldOf(fa)] {
+					sv := resolve(st.Val)
+					okSrc := false
+					if _, isParam := sv.(*ssa.Parameter); isParam {
+						okSrc = true
+					}
+					if l2, ok := sv.(*ssa.UnOp); ok {
+						if fa2, ok := l2.X.(*ssa.FieldAddr); ok && fieldOf(fa2) == fieldOf(fa) {
+							okSrc = true
+						}
+					}
+					if !okSrc || !isFreshObject(st.Addr.(*ssa.FieldAddr).X) {
+						good = false
+						res.bad("C13-R4", fmt.Sprintf("%s: read revision of the stream receiver is set only at construction / fork", funcName(st.Parent())), p.pos(st.Pos()), "the receiver's read revision is overwritten after construction: streamed batches name a revision other than the one they were read at")
+					}
+				}
+			}
+		}
 		if good {
 			res.ok("C13-R4", construct, p.pos(s.Pos()), "the receiver's read revision / the stream's revision parameter")
 		} else {
